@@ -246,7 +246,7 @@ func (e *Executor) RunTask(ctx context.Context, call *Call) error {
 
 		for i := range t.Cmds {
 			if t.Cmds[i].Defer {
-				defer e.runDeferred(t, call, i, &deferredExitCode)
+				defer e.runDeferred(ctx, t, call, i, &deferredExitCode)
 				continue
 			}
 
@@ -316,8 +316,11 @@ func (e *Executor) runDeps(ctx context.Context, t *ast.Task) error {
 	return g.Wait()
 }
 
-func (e *Executor) runDeferred(t *ast.Task, call *Call, i int, deferredExitCode *uint8) {
-	ctx, cancel := context.WithCancel(context.Background())
+func (e *Executor) runDeferred(ctx context.Context, t *ast.Task, call *Call, i int, deferredExitCode *uint8) {
+	// Deferred commands run even when the task was cancelled, but they still
+	// belong to its call chain (the cycle check for deduplicated tasks reads
+	// the chain from the context).
+	ctx, cancel := context.WithCancel(context.WithoutCancel(ctx))
 	defer cancel()
 
 	origTask, err := e.GetTask(call)
